@@ -160,6 +160,8 @@ class Flow:
         if pl[1] in ([], ) or all(isinstance(e, list) and e[0] in ("f", "d") for e in pl[1]):
             return pl[0]
         if pl[1] and pl[1][0] == "*" and depth < 4:
+            if 1 <= pl[0] <= self.f.argc:
+                return pl[0]  # behind a reference parameter
             return self.deref_local(pl[0], depth + 1)
         return None
 
@@ -285,6 +287,18 @@ class Flow:
                 elif g is None or g not in holders:
                     # guard that is not a local holder: a field of self / a parameter -> outlives this function
                     prot.pop(src, None)
+        elif c.get("local") and d is not None and rooting_summary(fx, d):
+            gi, vi = rooting_summary(fx, d)
+            if gi - 1 < len(args) and vi - 1 < len(args) and args[gi - 1][0] in ("c", "m") and args[vi - 1][0] in ("c", "m"):
+                g = self.deref_local(args[gi - 1][1][0])
+                v = self.deref_local(args[vi - 1][1][0])
+                if v is None:
+                    v = args[vi - 1][1][0]
+                if v in prot:
+                    if g is not None and g in holders:
+                        add_protector(prot, v, g)
+                    elif g is None or g not in holders:
+                        prot.pop(v, None)
         elif name.endswith("Interpreter::guard_value") and len(args) > 1:
             v = self.deref_local(args[1][1][0]) if args[1][0] in ("c", "m") else None
             if dl is not None:
@@ -474,6 +488,52 @@ class Flow:
                 self.step_stmt(st, s)
             self.step_term(st, b, f.blocks[b]["t"], rep)
         return self.reports
+
+
+_root_summ = {}
+
+
+def rooting_summary(fx, path):
+    """(guard_param_index, value_param_index) if the local function guards (a clone of) one of its
+    parameters into a `&Guard` parameter - the `guard_if_object(&guard, &value)` helper shape"""
+    key = (id(fx), path)
+    if key in _root_summ:
+        return _root_summ[key]
+    res = None
+    g = fx.fns.get(path)
+    if g is not None and not g.closure:
+        gp = [i for i in range(1, g.argc + 1) if fx.tys(g.locals[i]).startswith("&gc::Guard<")]
+        if gp:
+            fl = Flow(fx, g, set())
+            for bi, t in g.calls():
+                if t[1].get("d") == "gc::Guard::<T>::guard" and len(t[2]) > 1 and t[2][0][0] in ("c", "m"):
+                    recv = t[2][0][1][0]
+                    r0 = recv
+                    for _ in range(4):
+                        d0 = M.trace_back(g, r0)
+                        if d0 and d0[1] != "T" and d0[2][0] in ("use", "ref"):
+                            nxt = d0[2][1][1][0] if d0[2][0] == "use" and d0[2][1][0] in ("c", "m") else (d0[2][2][0] if d0[2][0] == "ref" else None)
+                            if nxt is None:
+                                break
+                            r0 = nxt
+                        else:
+                            break
+                    if r0 in gp:
+                        src = fl.clone_source(t[2][1])
+                        s0 = src
+                        for _ in range(6):
+                            if s0 is None or 1 <= s0 <= g.argc:
+                                break
+                            nxt = fl.deref_local(s0)
+                            if nxt is None:
+                                d0 = M.trace_back(g, s0)
+                                if d0 and d0[1] != "T" and d0[2][0] == "use" and d0[2][1][0] in ("c", "m"):
+                                    nxt = d0[2][1][1][0]
+                            s0 = nxt
+                        if s0 is not None and 1 <= s0 <= g.argc and s0 not in gp:
+                            res = (r0, s0)
+    _root_summ[key] = res
+    return res
 
 
 def analyse(fx, scope=None):
